@@ -211,3 +211,82 @@ func (h deepHit) rootSite() ssa.Instruction {
 	}
 	return h.In
 }
+
+// throughCall: a call made through a function value, and — when the value was first handed to a helper as an
+// argument — the call site that handed it over (the helper's frame).
+type throughCall struct {
+	Call ssa.CallInstruction
+	Via  ssa.CallInstruction // nil when the value is called in the function that holds it
+}
+
+func (p *Prog) callsThroughValueVia(fv ssa.Value, via ssa.CallInstruction, depth int) []throughCall {
+	var out []throughCall
+	if depth == 0 || fv.Referrers() == nil {
+		return nil
+	}
+	for _, r := range *fv.Referrers() {
+		switch x := r.(type) {
+		case ssa.CallInstruction:
+			com := x.Common()
+			if stripConv(com.Value) == fv && !com.IsInvoke() {
+				out = append(out, throughCall{x, via})
+				continue
+			}
+			cal := calleeOf(x)
+			if cal == nil || len(cal.Blocks) == 0 {
+				continue
+			}
+			for i, a := range com.Args {
+				if stripConv(a) == fv && i < len(cal.Params) {
+					out = append(out, p.callsThroughValueVia(cal.Params[i], x, depth-1)...)
+				}
+			}
+		case *ssa.ChangeType:
+			out = append(out, p.callsThroughValueVia(x, via, depth)...)
+		}
+	}
+	return out
+}
+
+// originTerms: the terms a value can stand for, seen from the function that ultimately supplies it: a closure
+// parameter becomes the argument of the calls made through the closure (translated out of the helper that makes
+// them), a helper parameter becomes the actual arguments at the helper's call sites; anything else is itself.
+func (p *Prog) originTerms(v ssa.Value, depth int) []*Term {
+	v = stripConv(v)
+	prm, ok := v.(*ssa.Parameter)
+	if !ok || depth == 0 {
+		return []*Term{termOf(v)}
+	}
+	fn := prm.Parent()
+	idx := paramIndexOf(prm)
+	var out []*Term
+	if fn.Parent() != nil {
+		for _, mc := range closureSites(fn) {
+			for _, tc := range p.callsThroughValueVia(mc, nil, 3) {
+				args := tc.Call.Common().Args
+				if idx >= len(args) {
+					continue
+				}
+				t := termOf(args[idx])
+				if tc.Via != nil {
+					t = t.subst(callActuals(tc.Via))
+				}
+				out = append(out, t)
+			}
+		}
+	} else {
+		for _, cs := range p.CallSites(fn) {
+			if isTestdataOrMock(cs.Parent()) || cs.Common().IsInvoke() {
+				continue
+			}
+			args := cs.Common().Args
+			if idx < len(args) {
+				out = append(out, termOf(args[idx]))
+			}
+		}
+	}
+	if len(out) == 0 {
+		return []*Term{termOf(v)}
+	}
+	return out
+}
